@@ -42,6 +42,7 @@ type Exec struct {
 	Acc        map[string][]uint8
 	PointsSeen int64
 	Err        string
+	Diverged   bool
 }
 
 // Backend executes the scenario once from its initial state, following prefix (then choice 0),
@@ -98,6 +99,7 @@ type Stats struct {
 	BoundCompleted                                    int
 	Restarts                                          int
 	Capped                                            bool
+	Diverged                                          bool
 }
 
 // Progress, if set, is called after every execution (watchdog keep-alive).
@@ -180,7 +182,10 @@ func run(sc *Scenario, prefix []int) *Exec {
 		if i < len(prefix) {
 			c = prefix[i]
 			if c >= len(p.enabled) {
-				panic(fmt.Sprintf("e2: replay divergence at decision %d: choice %d of %d enabled", i, c, len(p.enabled)))
+				// the same prefix no longer leads to the same decision point: the initial state was not the same
+				// (library state surviving from earlier executions in this process). Run to completion with choice 0.
+				x.Diverged = true
+				c = 0
 			}
 		}
 		x.points = append(x.points, p)
@@ -299,6 +304,10 @@ func Explore(name string, be Backend, maxBound int, expected []string, maxExec i
 			Progress()
 		}
 		st.PointsSeen = x.PointsSeen
+		if x.Diverged {
+			st.Diverged, st.Capped = true, true
+			return true
+		}
 		if x.Err == "" && grow(x) {
 			return false // restart with the larger conflict set
 		}
